@@ -99,6 +99,10 @@ C["C18"]["text"]+=" Expiry pairs: two exports (kinds, validities, one or two ori
 C["C11"]["text"]+=" Family F11: the store already holds what this client uploads (another client with a shard cache of its own stored it); the upload must still be recorded, so that the client's own repeat session transfers nothing."
 C["C10"]["text"]+=" The consolidation menu holds a xorbs-only shard without lookup tables (footer counts 0)."
 C["C01"]["text"]+=" C01x also runs the concurrent scenario [abc,de,(empty)] under one upload permit."
+C["C03"]["text"]+=" F2 also interleaves two files of which one repeats a run of its own pending chunks (also fed in two halves) while the other's xorb teaches the session shard part of that run."
+C["C18"]["text"]+=" Expiry kind 3: a keyed export re-expired after it has aged (the validity counts from the re-export)."
+C["C07"]["text"]+=" The stream decoder is also fed every piece as a non-contiguous buffer (a chain of its two halves)."
+C["C13"]["text"]+=" Harness get||identical put over an item damaged while closed."
 C["C16"]["text"]+=" Family inject-retry: the explored session (with its failures) is followed in the same process by a fault-free repeat, which is the one judged; scenario inject-conc2r: two cleaners that both register a xorb while the only permit is held."
 C["C17"]["text"]+=" Downloads to an output path that cannot be created: an error, or Ok(n) with n bytes at the path."
 C["C19"]["text"]+=" After a restart every complete cache item file still on disk must be tracked."
